@@ -36,20 +36,54 @@ CHILD = os.path.join(env.VERIF, "vmon", "c17_child.py")
 
 def required(tier):
     return ["history:after_failure", "history:repeat_same_text", "history:after_other_resolution", "threads:switches_inside_chartparse>=100",
-            "threads:2", "threads:16", "baseline:valid", "baseline:failing", "selection_cases"]
+            "threads:2", "threads:16", "baseline:valid", "baseline:failing", "selection_cases", "read_by_path_cases",
+            "cold_start:first_parses_of_the_process_were_concurrent"]
 
 
 def shards(tier, seed):
-    n = 16 if tier == "quick" else 32
-    return [{"name": f"hist-{i}", "texts": 10 if tier == "quick" else 24, "history": 150 if tier == "quick" else 1600,
-             "thread_rounds": 2 if tier == "quick" else 12} for i in range(n)]
+    n = 12 if tier == "quick" else 32
+    out = [{"name": f"hist-{i}", "kind": "history", "texts": 10 if tier == "quick" else 24, "history": 150 if tier == "quick" else 1600,
+            "thread_rounds": 2 if tier == "quick" else 12} for i in range(n)]
+    # cold start: the very first parses of the process happen concurrently (lazy initialisation, first-use growth of tables)
+    out += [{"name": f"cold-{i}", "kind": "cold", "texts": 6, "history": 0, "thread_rounds": 1 if tier == "quick" else 3}
+            for i in range(4 if tier == "quick" else 16)]
+    return out
 
 
-def outcome_of(text, want=None) -> dict:
-    out = harness.parse(text, harness.pairs([tuple(p) for p in want]) if want is not None else None)
+_TMP = None
+
+
+def outcome_of(text, want=None, path_bytes_hex=None) -> dict:
+    sel = harness.pairs([tuple(p) for p in want]) if want is not None else None
+    if path_bytes_hex is None:
+        out = harness.parse(text, sel)
+    else:
+        # the same bytes read by path (BOM, non-ASCII text, or bytes that are not UTF-8 at all)
+        global _TMP
+        import pathlib
+        import tempfile
+
+        if _TMP is None:
+            _TMP = tempfile.mkdtemp(prefix="vmon-c17-")
+            import atexit
+            import shutil
+
+            atexit.register(shutil.rmtree, _TMP, True)
+        p = pathlib.Path(_TMP) / f"c{threading.get_ident()}.chart"
+        p.write_bytes(bytes.fromhex(path_bytes_hex))
+        env.LOG.drain()
+        try:
+            c = harness.Chart.from_filepath(p) if sel is None else harness.Chart.from_filepath(p, want_tracks=sel)
+            out = harness.Outcome(c, None, env.LOG.drain())
+        except Exception as e:  # noqa
+            out = harness.Outcome(None, e, env.LOG.drain())
     logs = [[a, b, c] for a, b, c in out.logs]
     if out.ok:
-        return {"ok": True, "obs": hashlib.sha256(observe.digest(harness.obs(out.chart)).encode()).hexdigest(), "logs": logs}
+        ch = out.chart
+        order = [(i.name, [d.name for d in m]) for i, m in ch.instrument_tracks.items()]
+        rendered = hashlib.sha256((str(ch) + "\x00" + repr(ch)).encode("utf-8", "surrogatepass")).hexdigest()
+        return {"ok": True, "obs": hashlib.sha256(observe.digest(harness.obs(ch)).encode()).hexdigest(), "order": order,
+                "rendered": rendered, "logs": logs}
     return {"ok": False, "err": [type(out.exc).__name__, str(out.exc)], "logs": logs}
 
 
@@ -105,15 +139,33 @@ def corpus(rng, n):
             else:
                 text = gen.render_sections([(n_, ["  0 = N 5 0", "  0 = N 0 0"] if n_ not in ("Song", "SyncTrack", "Events") else b) for n_, b in secs])
             texts.append({"text": text, "want": None, "res": c["truth"]["resolution"], "kind": "failing:" + stage})
+    # read-by-path variants: UTF-8 with BOM, UTF-8 with non-ASCII text, and bytes that are not UTF-8 (fails the same way everywhere)
+    valid = [t for t in texts if t["kind"] == "valid" and t["want"] is None]
+    if valid:
+        v = rng.choice(valid)
+        sp = v["text"].replace("[Song]\n{\n", "[Song]\n{\n  Name = \"Caf\u00e9 \u4e16\u754c\"\n", 1) if "  Name = " not in v["text"] else v["text"]
+        texts.append(dict(v, text=sp, path_bytes_hex=(b"\xef\xbb\xbf" + sp.encode("utf-8")).hex(), kind="valid"))
+        texts.append(dict(v, text=sp, path_bytes_hex=sp.encode("utf-8").hex(), kind="valid"))
+        texts.append(dict(v, text=sp, path_bytes_hex=sp.encode("utf-8").replace(b"[Song]", b"[Song]\r\n{\r\n  Artist = \"Mot\xf6rhead\"\r\n}\r\n[X]", 1).hex(),
+                          kind="failing:not_utf8"))
+    # a long run of star-power phrases without notes, then notes inside the last ones: per-index structures grow on first use
+    npz = rng.choice([400, 600])
+    phrases = [[10 * k, 5] for k in range(npz)]
+    groups = [{"tick": 10 * k + 1, "lanes": {str(k % 5): 0}, "open": None, "forced": False, "tap": False} for k in range(npz - 6, npz)]
+    truth = {"resolution": 192, "tempos": [[0, gen.usable_n(120000)]], "timesigs": [[0, 4, None]],
+             "tracks": {"GUITAR/EXPERT": {"groups": groups, "phrases": phrases}}}
+    texts.append({"text": gen.render_truth(truth)["text"], "want": None, "res": 192, "kind": "valid"})
     return texts
 
 
 def baselines(texts):
     """one fresh interpreter per text"""
     outs = []
-    for t in texts:
-        p = subprocess.run([env.PY, CHILD], input=json.dumps([{"text": t["text"], "want": t["want"]}]), capture_output=True, text=True,
-                           timeout=300, env=env.child_env(), cwd=env.VERIF)
+    for k, t in enumerate(texts):
+        # each fresh interpreter gets ITS OWN string-hash seed (this process runs with seed 0): "a fresh interpreter" is any
+        # interpreter, so nothing observable may depend on set/dict hashing order
+        p = subprocess.run([env.PY, CHILD], input=json.dumps([{"text": t["text"], "want": t["want"], "path_bytes_hex": t.get("path_bytes_hex")}]),
+                           capture_output=True, text=True, timeout=300, env=env.child_env({"PYTHONHASHSEED": str(1 + 7 * k)}), cwd=env.VERIF)
         if p.returncode != 0 or not p.stdout.strip():
             raise RuntimeError(f"baseline interpreter failed: rc={p.returncode} {p.stderr[-400:]}")
         outs.append(json.loads(p.stdout.strip().splitlines()[-1])[0])
@@ -125,6 +177,10 @@ def diff(a, b):
         return f"fresh interpreter: {'chart' if a['ok'] else a['err']}; here: {'chart' if b['ok'] else b['err']}"
     if a["ok"] and a["obs"] != b["obs"]:
         return "the canonical observation of the returned chart differs from the fresh interpreter's"
+    if a["ok"] and [list(x) for x in a["order"]] != [list(x) for x in b["order"]]:
+        return f"iteration order of chart.instrument_tracks differs: fresh interpreter {a['order']}, here {b['order']}"
+    if a["ok"] and a["rendered"] != b["rendered"]:
+        return "str(chart) / repr(chart) differ from the fresh interpreter's"
     if not a["ok"] and a["err"] != b["err"]:
         return f"error differs: fresh {a['err']} vs here {b['err']}"
     if a["logs"] != b["logs"]:
@@ -182,7 +238,7 @@ class Injector:
         return None
 
 
-def threaded_round(rec, texts, base, nthreads, p, seed, rounds_per_thread):
+def threaded_round(rec, texts, base, nthreads, p, seed, rounds_per_thread, first=None):
     inj = Injector(p, seed)
     results = {}
     errors = []
@@ -192,9 +248,9 @@ def threaded_round(rec, texts, base, nthreads, p, seed, rounds_per_thread):
 
         r = random.Random(f"{seed}/{k}")
         try:
-            for _ in range(rounds_per_thread):
-                i = r.randrange(len(texts))
-                results.setdefault(k, []).append((i, outcome_of(texts[i]["text"], texts[i]["want"])))
+            for j in range(rounds_per_thread):
+                i = first if (first is not None and j == 0) else r.randrange(len(texts))
+                results.setdefault(k, []).append((i, outcome_of(texts[i]["text"], texts[i]["want"], texts[i].get("path_bytes_hex"))))
         except BaseException as e:  # noqa
             errors.append(f"{type(e).__name__}: {e}")
 
@@ -229,7 +285,7 @@ def threaded_round(rec, texts, base, nthreads, p, seed, rounds_per_thread):
             d = diff(base[i], got)
             if d:
                 rec.violation("schedule-dependence", f"{nthreads} threads, yield p={p}: text #{i} ({texts[i]['kind']}): {d}",
-                              {"kind": "threads", "texts": [{"text": t["text"], "want": t["want"]} for t in texts], "index": i, "nthreads": nthreads,
+                              {"kind": "threads", "texts": [{"text": t["text"], "want": t["want"], "path_bytes_hex": t.get("path_bytes_hex")} for t in texts], "index": i, "nthreads": nthreads,
                                "p": p, "seed": seed, "rounds": rounds_per_thread}, "parse-depends-on-concurrent-parses")
                 return
             rec.key(["threads", nthreads, p, texts[i]["text"][:200], i])
@@ -247,13 +303,13 @@ def history(rec, rng, texts, base, steps):
             i = rng.randrange(len(texts))
         seq.append(i)
         t = texts[i]
-        got = outcome_of(t["text"], t["want"])
+        got = outcome_of(t["text"], t["want"], t.get("path_bytes_hex"))
         rec.ev()
         d = diff(base[i], got)
         if d:
             rec.violation("history-dependence", f"parse #{s} of a single-process history (text #{i}, {t['kind']}, after text "
                           f"#{prev} {'' if prev is None else texts[prev]['kind']}): {d}",
-                          {"kind": "history", "texts": [{"text": x["text"], "want": x["want"]} for x in texts], "sequence": seq[-60:]},
+                          {"kind": "history", "texts": [{"text": x["text"], "want": x["want"], "path_bytes_hex": x.get("path_bytes_hex")} for x in texts], "sequence": seq[-60:]},
                           "parse-depends-on-history")
             return
         if prev is not None:
@@ -272,7 +328,7 @@ def history(rec, rng, texts, base, steps):
                 rec.ev()
                 if not (a == b and b == a):
                     rec.violation("repeat-inequality", f"two parses of text #{i} in one process are not equal (==)",
-                                  {"kind": "history", "texts": [{"text": x["text"], "want": x["want"]} for x in texts], "sequence": seq[-60:]},
+                                  {"kind": "history", "texts": [{"text": x["text"], "want": x["want"], "path_bytes_hex": x.get("path_bytes_hex")} for x in texts], "sequence": seq[-60:]},
                                   "repeated-parses-unequal")
                     return
             last_chart[i] = a
@@ -306,17 +362,27 @@ def run_shard(shard, rec, tier, seed):
         rec.cls("baseline:valid" if b["ok"] else "baseline:failing")
         if t["want"] is not None:
             rec.cls("selection_cases")
+        if t.get("path_bytes_hex"):
+            rec.cls("read_by_path_cases")
     rec.mon("fresh_interpreters", len(texts))
-    history(rec, rng, texts, base, shard["history"])
+    cold = shard.get("kind") == "cold"
+    if not cold:
+        history(rec, rng, texts, base, shard["history"])
     if not rec.full:
         for r in range(shard["thread_rounds"]):
-            nthreads = [2, 16, 4, 8][r % 4]
+            nthreads = [2, 16, 4, 8][r % 4] if not cold else [4, 8, 2][r % 3]
             p = [0.02, 0.002, 0.2][r % 3]
-            small = [k for k, t in enumerate(texts) if len(t["text"]) < 7000] or list(range(len(texts)))
+            small = [k for k, t in enumerate(texts) if len(t["text"]) < 14000] or list(range(len(texts)))
+            # cold start: every thread's first parse is the text with the longest phrase run, all at the same time
+            first = len(small) - 1 if cold and r == 0 else None
             threaded_round(rec, [texts[k] for k in small], [base[k] for k in small], nthreads, p, f"{seed}/{shard['name']}/{r}",
-                           2 if nthreads >= 8 else 5)
+                           2 if nthreads >= 8 else (3 if cold else 5), first=first)
+            if cold and r == 0:
+                rec.cls("cold_start:first_parses_of_the_process_were_concurrent")
             if rec.full:
                 break
+    if cold and not rec.full:
+        history(rec, rng, texts, base, 40)  # and whatever the concurrent start left behind must not leak into later parses
     cache_report(rec)
     rec.sample({"corpus": [t["kind"] for t in texts], "first_text_head": texts[0]["text"][:200]})
     harness.finish(rec)
@@ -331,11 +397,11 @@ def finalize(agg, tier):
 
 def replay(case, rec):
     harness.setup(with_contracts=False)
-    texts = [{"text": t["text"], "want": t["want"], "kind": "replay", "res": 0} for t in case["texts"]]
+    texts = [{"text": t["text"], "want": t["want"], "path_bytes_hex": t.get("path_bytes_hex"), "kind": "replay", "res": 0} for t in case["texts"]]
     base = baselines(texts)
     if case["kind"] == "history":
         for s, i in enumerate(case["sequence"]):
-            got = outcome_of(texts[i]["text"], texts[i]["want"])
+            got = outcome_of(texts[i]["text"], texts[i]["want"], texts[i].get("path_bytes_hex"))
             rec.ev()
             d = diff(base[i], got)
             if d:
